@@ -206,7 +206,13 @@ class GrandCanonical(
 
     def save_state(self) -> None:
         """Save the current state of the context and update move labels."""
+        notified: set[int] = set()
+
         for move_storage in self.moves.values():
+            if id(move_storage.move) in notified:
+                continue
+
+            notified.add(id(move_storage.move))
             move_storage.move.on_atoms_changed(
                 self.context._added_indices, self.context._deleted_indices
             )
